@@ -22,4 +22,17 @@ inductive Cat | func | sub | type | iface | absIface | var
 inductive Src | self | child
   deriving DecidableEq, Repr
 
+/-- The places of a module page (`mod_page.html` with the macros of `macros.html`) where a visibility word is
+    printed: a row of the *Variables* table, the heading of a derived type, a row of its *Components* / *Type-Bound
+    Procedures* tables, the heading of a generic interface, a procedure listed under a generic interface (declared by
+    an interface body - `member` - or referenced by `module procedure` - `ref`), the procedure of a non-generic /
+    abstract interface entry, the heading of a function / subroutine, the heading of a `module procedure` body. -/
+inductive PKind | var | type | comp | bind | generic | member | ref | wrapper | absIface | func | sub | mproc
+  deriving DecidableEq, Repr
+
+/-- Whose `permission` the template prints at such a place: the entity's own, that of the object it is listed
+    under (module, type, generic interface), or nothing. -/
+inductive PSrc | own | owner | none
+  deriving DecidableEq, Repr
+
 end Ford.Access
